@@ -359,5 +359,45 @@ func main() {
 				}
 			}
 		}})
+	// histories: results must not alias internal state or depend on earlier calls
+	ck.Domains = append(ck.Domains, &drv.Domain{Name: "histories", Size: 12 * 12 * 2, Chunk: 12, Desc: "every ordered pair of 12 inputs (48- and 51-byte forms): enc(a); enc(b); [dec(enc(a))]: the FIRST phrase is still the reference encoding of a after the second call (no aliasing of a reused buffer), both decode back",
+		Run: func(c *drv.Ctx, lo, hi int64) {
+			initIdx()
+			mk := func(k int) []byte {
+				n := 48
+				if k >= 6 {
+					n = 51
+				}
+				b := background(n, k%3)
+				for g := 0; g < n*8/12; g++ {
+					setGroup(b, g, (g*(131+k*7)+k*977)&4095)
+				}
+				return b
+			}
+			for i := lo; i < hi; i++ {
+				c.At(i)
+				a, b, withDec := mk(int(i%12)), mk(int(i/12%12)), i/144 == 1
+				sa, _ := enc(a)
+				if withDec {
+					dec(sa, len(a))
+				}
+				sb, _ := enc(b)
+				c.Eval(1)
+				c.Nontrivial(1)
+				if sa != refcodec.Encode(words, a) || sb != refcodec.Encode(words, b) {
+					c.Fail(i, "history:earlier-result-changed-by-later-call", map[string]any{"a": drv.Hex(a), "b": drv.Hex(b), "first_phrase_now": sa, "expected": refcodec.Encode(words, a)})
+					continue
+				}
+				da, oa := dec(sa, len(a))
+				db, ob := dec(sb, len(b))
+				if oa != "ok" || ob != "ok" || !bytes.Equal(da, a) || !bytes.Equal(db, b) {
+					c.Fail(i, "history:decode-after-two-encodes", map[string]any{"a": drv.Hex(a), "b": drv.Hex(b)})
+				}
+				c.Outcome("ok")
+				if i == 13 {
+					c.Sample(map[string]any{"a": drv.Hex(a), "b": drv.Hex(b)})
+				}
+			}
+		}})
 	drv.Main(ck)
 }
